@@ -25,6 +25,7 @@ type Gen struct {
 	pureMu    sync.Mutex
 	tagMu     sync.Mutex
 	tagIDs    map[string]int
+	noInline  map[*ssa.Function]bool
 	repo      string
 }
 
@@ -69,7 +70,7 @@ func loadProgram(repo string, patterns []string, overlay map[string][]byte) (*Ge
 	prog, _ := ssautil.AllPackages(pkgs, ssa.GlobalDebug|ssa.InstantiateGenerics)
 	prog.Build()
 	g := &Gen{prog: prog, pkgs: pkgs, ssaPkgs: map[string]*ssa.Package{}, typesPkgs: map[string]*types.Package{},
-		funcs: map[string]*ssa.Function{}, cs: newContractSet(), pure: map[*ssa.Function]int{}, tagIDs: map[string]int{}, repo: repo}
+		funcs: map[string]*ssa.Function{}, cs: newContractSet(), pure: map[*ssa.Function]int{}, tagIDs: map[string]int{}, repo: repo, noInline: map[*ssa.Function]bool{}}
 	for _, sp := range prog.AllPackages() {
 		g.ssaPkgs[sp.Pkg.Path()] = sp
 		g.typesPkgs[sp.Pkg.Path()] = sp.Pkg
@@ -249,6 +250,7 @@ func (c *FnCtx) resetPass() {
 	c.obs = nil
 	c.ord = map[string]int{}
 	c.allocs = nil
+	c.localCells = nil
 	c.refVals = nil
 	c.retCount = 0
 	c.calleeOrd = map[string]int{}
@@ -435,6 +437,11 @@ func (c *FnCtx) setupEntry() {
 	}
 	for k := range c.watch {
 		c.ghost[k] = Val{T: c.mode.idxLit(0), Ty: intTy}
+	}
+	for _, l := range c.g.cs.Lemmas {
+		if l.Global && l.Axiom {
+			c.useLemma(l.Name)
+		}
 	}
 	if c.fc == nil {
 		return
